@@ -620,7 +620,14 @@ func ruleC03Startup(w *World, r *Report) {
 			}
 		case "processQER":
 			if k, _ := constInt(c.Call.Args[3]); k == clr {
-				got = append(got, name+":"+symOf(c.Call.Args[4]).String())
+				if names := constStringsOfElem(c.Call.Args[4]); len(names) > 0 {
+					// one call in a loop over a fixed list of table names
+					for _, nm := range names {
+						got = append(got, name+":"+fmt.Sprintf("%q", nm))
+					}
+				} else {
+					got = append(got, name+":"+symOf(c.Call.Args[4]).String())
+				}
 			}
 		}
 	})
@@ -971,4 +978,53 @@ func sliceDerivesFromField(v ssa.Value, field string, depth int) bool {
 		return len(x.Edges) > 0
 	}
 	return false
+}
+
+// constStringsOfElem: v is the element of a local fixed-size array of string constants, read with a
+// full range index; returns the constants (all of them are visited).
+func constStringsOfElem(v ssa.Value) []string {
+	var al *ssa.Alloc
+	var idx ssa.Value
+	var ia *ssa.IndexAddr
+	switch x := v.(type) {
+	case *ssa.UnOp:
+		if x.Op != token.MUL {
+			return nil
+		}
+		ia, _ = x.X.(*ssa.IndexAddr)
+		if ia == nil {
+			return nil
+		}
+		al, _ = ia.X.(*ssa.Alloc)
+		idx = ia.Index
+	case *ssa.Index:
+		// range over an array value: the array is copied first (t = *alloc), then indexed
+		if u, ok := x.X.(*ssa.UnOp); ok && u.Op == token.MUL {
+			al, _ = u.X.(*ssa.Alloc)
+		}
+		idx = x.Index
+	}
+	if al == nil || al.Referrers() == nil || idx == nil {
+		return nil
+	}
+	if !isRangeIndexOf(idx) && !fullRangeIndex(idx, map[ssa.Value]bool{}) {
+		return nil
+	}
+	var out []string
+	for _, ref := range *al.Referrers() {
+		ia2, ok := ref.(*ssa.IndexAddr)
+		if !ok || ia2 == ia || ia2.Referrers() == nil {
+			continue
+		}
+		for _, r2 := range *ia2.Referrers() {
+			if st, ok := r2.(*ssa.Store); ok {
+				if sc, isS := constString(st.Val); isS {
+					out = append(out, sc)
+				} else {
+					return nil
+				}
+			}
+		}
+	}
+	return out
 }
